@@ -78,15 +78,7 @@ def run(ctx):
     ctx.check("C08-R4", "accept_datagram hand-off", bool(good), "Worker::accept_datagram returns Ok without sending the parsed datagram to the reserved slot", where(fn))
 
     ctx.rule("C08-R5", "the worker's select-branch futures accept_uni/accept_bi/accept_datagram carry no stream-read progress")
-    for name in ("accept_uni", "accept_bi", "accept_datagram"):
-        c = idx.find1(r"^wtransport::driver::worker::Worker::%s::\{closure#0\}$" % name)
-        res = idx.classify({"k": "cor", "did": c.path, "local": True}, "pcf")
-        ctx.check("C08-R5", "Worker::%s not PCF" % name, not res, "Worker::%s (a select-loop branch) awaits %s" % (name, [(k, short_chain(x)) for k, x in res][:3]), c.fn.at)
-        # and it owns no pulled stream across a later suspension
-        for s in c.susp:
-            owned = [nm for nm, ty in s.held_types() if idx.contains(ty, lambda d: d in VALUE_TYPES, through_local_adts=False)]
-            ctx.check("C08-R5", "Worker::%s|susp%d owns no pulled item" % (name, s.variant), not owned,
-                      "Worker::%s owns %s across an await inside the select loop: it is dropped when another branch wins" % (name, owned), s.where)
+    shared.acceptor_branches(ctx, "C08-R5", idx)
 
     ctx.rule("C08-R6", "a dequeued stream of the session is returned, never refused: only foreign-session streams are stopped")
     shared.driver_session_filters(ctx, "C08-R6", which=("accept_uni", "accept_bi"))
